@@ -15,6 +15,9 @@ STAGES = {
     "lace::parser::AsmParser::parse": "parse",
     "lace::air::Air::backpatch": "backpatch",
     "lace::air::AsmLine::emit": "emit",
+    # per-statement form of the backpatch stage (`for stmt in air.ast.iter_mut() { stmt.backpatch()?; }`); like emit it counts for the
+    # whole program only through a loop / drain over every statement (a partial loop shows up through its zero-iteration path)
+    "lace::air::AsmLine::backpatch": "backpatch",
 }
 ALL = frozenset(STAGES.values())
 EMPTY = frozenset()
@@ -101,6 +104,29 @@ class StageAnalysis:
         if not self._EXHAUST.search(c) or not t.get("args"):
             return None
         tys = " ".join(t.get("arg_tys") or [])
+        if "AsmLine" in tys and "adapters::map::Map<" not in tys and re.search(r"::(try_for_each|for_each)$", c):
+            # `whole_list_iter.try_for_each(f)`: f itself runs on every statement (a closure, or a stage function passed by name)
+            ty0 = (t.get("arg_tys") or [""])[0]
+            if not re.search(r"(slice::iter::Iter(Mut)?|vec::into_iter::IntoIter)<", ty0):
+                return None
+            if any(a not in _WHOLE_ADAPTERS for a in re.findall(r"iter::adapters::\w+::(\w+)", ty0)):
+                return None
+            for x in expr_walk(fn.expr(t["args"][0], 12)):
+                if x[0] == "call" and re.search(r"(::index|::index_mut|::get|::get_mut|::split_at|::split_first|::split_last|::skip|::take|::filter|::step_by)$", str(x[1])):
+                    return None
+                if x[0] == "agg" and "ops::range::Range" in str(x[1]):
+                    return None
+            must = None
+            for cl in t["f"].get("closures", []):
+                nm = cl[3:] if cl.startswith("fn:") else cl
+                if nm in self.stages:
+                    m = frozenset([self.stages[nm]])
+                elif self.summary.get(nm):
+                    m = frozenset.intersection(*list(self.summary[nm]))
+                else:
+                    continue
+                must = m if must is None else (must | m)
+            return must
         if "AsmLine" not in tys or "adapters::map::Map<" not in tys:
             return None
         if any(a not in _WHOLE_ADAPTERS for a in re.findall(r"iter::adapters::\w+::(\w+)", tys)):
